@@ -5,6 +5,7 @@ import PowHsm.Spec.C01
 import PowHsm.Proofs.Chunks
 import PowHsm.Proofs.Monad
 import PowHsm.Proofs.Sign
+import PowHsm.Proofs.SignLast
 namespace PowHsm
 namespace Props.C01
 open Dongle M
@@ -89,6 +90,68 @@ theorem sign_hash_relays_exactly (path : List Nat) (h : Bytes) (w : World) :
     · exact Emits.throw _
   · intro r
     split <;> exact Emits.pure _
+
+/-- **…and then carries exactly the r and s of the DER signature the device returned**: whenever an
+    authorized signature is returned — for every request and every device behaviour — the device's
+    answer to the LAST message sent named the SUCCESS operation, and the `r`, `s` returned are the
+    two integers of the DER signature that follows its 3-byte header -/
+theorem sign_returns_device_signature (a : SignAuthArgs) (w : World) (r s : Bytes)
+    (h : (signAuthorized a w).val = .ok (.sig r s)) :
+    ∃ resp, lastAnswer w.script (signAuthorized a w).evs = some (.data resp) ∧
+      resp[2]? = some OP_SUCCESS ∧ Der.parse (resp.drop 3) = some (r, s) :=
+  signAuthorized_sigFromLast a w r s h
+
+/-- the same for an unauthorized signature: `r`, `s` come out of the answer to the one message sent -/
+theorem sign_hash_returns_device_signature (path : List Nat) (hash : Bytes) (w : World) (r s : Bytes)
+    (h : (signUnauthorized path (some hash) w).val = .ok (.sig r s)) :
+    ∃ resp rest, w.script = .data resp :: rest ∧ resp[2]? = some OP_SUCCESS ∧
+      Der.parse (resp.drop 3) = some (r, s) := by
+  unfold signUnauthorized at h
+  simp only at h
+  obtain ⟨st, e1, w1, hstep, hrest, _, _⟩ := M.bind_ok_inv h
+  cases st with
+  | error c => simp at hrest
+  | ok resp =>
+    simp only [M.pure_apply] at hrest
+    injection hrest with hrest
+    unfold catchResult M.tryCatchIf at hstep
+    rw [M.bind_apply] at hstep
+    cases hsc : sendCommand CMD_SIGN (OP_PATH :: (Bip32.toBinary path ++ hash)) w with
+    | mk v ev wv =>
+      rw [hsc] at hstep
+      cases v with
+      | error ex => simp only at hstep; cases ex <;> simp [M.throw'] at hstep
+      | ok rsp =>
+        obtain ⟨rest, hscript, _, _⟩ := sendCommand_ok_inv hsc
+        simp only at hstep
+        rw [M.bind_apply] at hstep
+        cases hidx : idx rsp 2 wv with
+        | mk v2 e2 w2 =>
+          rw [hidx] at hstep
+          cases v2 with
+          | error ex => simp only at hstep; cases ex <;> simp [M.throw'] at hstep
+          | ok rop =>
+            obtain ⟨hrop, _, _⟩ := idx_ok_inv hidx
+            simp only at hstep
+            by_cases h1 : (rop == OP_BTC_TX) = true
+            · simp [h1] at hstep
+            · by_cases h2 : (rop != OP_SUCCESS) = true
+              · simp [h1, h2] at hstep
+              · simp only [h1, h2, Bool.false_eq_true, if_false, M.pure_apply, List.append_nil] at hstep
+                injection hstep with hv _ _
+                injection hv with hv
+                injection hv with hv
+                subst hv
+                have hsucc : rop = OP_SUCCESS := by simpa using h2
+                refine ⟨rsp, rest, hscript, by rw [hrop, hsucc], ?_⟩
+                unfold sigOfResponse at hrest
+                cases hd : Der.parse (rsp.drop 3) with
+                | none => rw [hd] at hrest; cases hrest
+                | some rs =>
+                  rw [hd] at hrest
+                  obtain ⟨r', s'⟩ := rs
+                  simp only [SignOut.sig.injEq] at hrest
+                  rw [hrest.1, hrest.2]
 
 /-- non-vacuity of `sign_relays_exactly`: a complete authorized signature (device asks for 255
     bytes each time) returns the device's signature after exactly four messages -/
